@@ -38,10 +38,10 @@ Definition a_is_file env m s := with_abs env m M_is_file s (fun p =>
 Definition a_no_file env m s := with_abs env m M_no_file s (fun p =>
   (m, if is_file_at m p then Panics M_no_file (render_rpath p) else Pass)).
 Definition a_is_symlink env m s := with_abs env m M_is_symlink s (fun p =>
-  (m, if exists_at m p then (if is_symlink_at m p then Pass else Panics M_is_symlink (render_rpath p))
-      else Panics M_is_symlink (render_rpath p))).
+  (m, if negb (is_symlink_at m p) then (if exists_at m p then Panics M_is_symlink (render_rpath p) else Panics M_is_symlink (render_rpath p))
+      else Pass)).
 Definition a_no_symlink env m s := with_abs env m M_no_symlink s (fun p =>
-  (m, if exists_at m p && is_symlink_at m p then Panics M_no_symlink (render_rpath p) else Pass)).
+  (m, if is_symlink_at m p then Panics M_no_symlink (render_rpath p) else Pass)).
 
 Definition file_bytes (m : mfs) (p : rpath) : option (list N) :=
   match m_ents m !! p with
